@@ -6,6 +6,7 @@ import AnySyncModel.Generated.AuthShape
   acl <rec>:<eff>/<eff>… …         eff = a<acc>=<perm> | r<acc>=<perm> | t<acc> ; `-` = no effect
   tree <raw>                        → ok | err:<enum>
   add <raw> <raw> …                 → <status> add=<ids in attach order> h=… a=… s=… sh=…   (sorted sets)
+  content id=<n> acc=<a>            → like add (the local AddContent path; id = the id the real builder produced)
   reopen                            → ok | err
   validate heads=<a.b|-> <root raw> <raw> …   → ok a=… | err:<enum>      (ValidateRawTreeDefault)
   raw = id=<n>,cid=<n>,b=<n>,dec=0|1[,p=<n>,sig=S.<k>.<p>|G.<n>|N,der=0|1,idt=<acc>,acl=<rec>,prev=<a.b|->,snap=<n>,iss=0|1]
@@ -125,6 +126,15 @@ def step (st : St) (line : String) : St × String :=
       | .error .headsMismatch => ({ st with cids := cids }, "err:invalid")
       | .error .derivedEmpty => ({ st with cids := cids }, "err:derived-empty")
       | .error .rebuild => ({ st with cids := cids }, "rebuild")
+    | _, _, _ => (st, "bad-op")
+  | ["content", i, a] =>
+    match st.tree, (if i.startsWith "id=" then (i.drop 3).toString.toNat? else none),
+        (if a.startsWith "acc=" then (a.drop 4).toString.toNat? else none) with
+    | some t, some id, some acc =>
+      let (o, added, t') := addContent cw keep st.log t id acc
+      let status := match o with
+        | .ok => "ok" | .err e => showErr e | .rebuild => "rebuild"
+      ({ st with tree := some t' }, s!"{status} add={showIds added} {post t'}")
     | _, _, _ => (st, "bad-op")
   | ["reopen"] =>
     match st.tree with
